@@ -197,6 +197,10 @@ def user_matrix(seed, nsites):
     """the operator a user supplies with a scheduled jump (deterministic in the seed; generic, not unitary)"""
     r = np.random.default_rng(seed)
     d = 2**nsites
+    if nsites == 2 and seed % 2 == 0:
+        # a product of two one-site operators, each with genuinely complex entries (e.g. X (x) S)
+        a, b = (np.eye(2) * 0.4 + 0.6 * (r.normal(size=(2, 2)) + 1j * r.normal(size=(2, 2))) for _ in range(2))
+        return np.kron(a, b)
     return np.eye(d, dtype=complex) * 0.4 + 0.6 * (r.normal(size=(d, d)) + 1j * r.normal(size=(d, d)))
 
 
